@@ -579,7 +579,9 @@ pub fn c08(tier: &str) -> ! {
         if t {
             run_sched(&mut rep, "fault-under-concurrency/p2d4", &c08_concurrent_programs(), (2, 4), 16, false, 2, Duration::from_secs(1500), own2);
         } else {
-            run_sched(&mut rep, "fault-under-concurrency/p1d3", &c08_concurrent_programs(), (1, 3), 4, false, 1, Duration::from_secs(15), own2);
+            // (of the three rotating-writer programs the quick tier keeps the first)
+            let progs: Vec<_> = c08_concurrent_programs().into_iter().filter(|p| !p.name.contains("wal-write-2-of-rotating") && !p.name.contains("wal-write-3-of-rotating")).collect();
+            run_sched(&mut rep, "fault-under-concurrency/p1d3", &progs, (1, 3), 4, false, 1, Duration::from_secs(22), own2);
         }
         rep.assume("schedule part: a fault by file kind (once or sticky) during 2-3 thread programs; interleavings only at synchronisation operations and named points");
     }
